@@ -21,6 +21,8 @@ def same_val(exp, got):
         if got.get("inf"):
             return False
         return len(exp["v"]) == len(got["v"]) and all(same_val(a, b) for a, b in zip(exp["v"], got["v"]))
+    if exp.get("t") == "stack":
+        return got.get("t") == "stack" and len(exp["v"]) == len(got["v"]) and all(same_val(a, b) for a, b in zip(exp["v"], got["v"]))
     if exp.get("t") in ("struct",) and got.get("t") == "struct":
         return len(exp["v"]) == len(got["v"]) and all(same_val(a, b) for a, b in zip(exp["v"], got["v"]))
     if exp.get("t") == "opt" and got.get("t") == "opt":
@@ -34,6 +36,8 @@ def norm(d):
         n = {"t": "seq", "inf": d.get("len") is None, "v": [norm(x) for x in d["v"]]}
     elif d and d.get("t") == "struct":
         n = {"t": "struct", "v": [norm(x) for x in d["v"]]}
+    elif d and d.get("t") == "stack":
+        n = {"t": "stack", "v": [norm(x) for x in d["v"]] if d.get("len") == len(d["v"]) else None}
     elif d and d.get("t") == "opt" and d["v"] is not None:
         n = {"t": "opt", "has": True, "v": norm(d["v"])}
     return n
